@@ -422,6 +422,90 @@ func c17BadCursors(env *verifx.Env, res *verifx.Result) {
 	}
 }
 
+// c17Filtered: listings seen through a server-side receiving middleware that hides some of the
+// registered items (per-user visibility) and leaves the cursors alone: pages may come out short or
+// empty while carrying a next cursor.  Manual paging follows the cursors to the end; the client
+// iterators yield the same sequence.
+func c17Filtered(cases *verifx.Cases) {
+	ctx := context.Background()
+	for _, kind := range c17Kinds() {
+		for _, pageSize := range []int{1, 2, 3} {
+			for hidden := 0; hidden < 32; hidden++ {
+				idx, mine := cases.Next()
+				if !mine {
+					continue
+				}
+				hide := map[string]bool{}
+				for i, n := range c17Names {
+					if hidden&(1<<i) != 0 {
+						hide[kind.id(n)] = true
+					}
+				}
+				s := NewServer(&Implementation{Name: "srv", Version: "1"}, &ServerOptions{PageSize: pageSize, Logger: quietLogger})
+				s.AddReceivingMiddleware(func(next MethodHandler) MethodHandler {
+					return func(ctx context.Context, method string, req Request) (Result, error) {
+						res, err := next(ctx, method, req)
+						switch r := res.(type) {
+						case *ListToolsResult:
+							r.Tools = slices.DeleteFunc(slices.Clone(r.Tools), func(t *Tool) bool { return hide[t.Name] })
+						case *ListPromptsResult:
+							r.Prompts = slices.DeleteFunc(slices.Clone(r.Prompts), func(t *Prompt) bool { return hide[t.Name] })
+						case *ListResourcesResult:
+							r.Resources = slices.DeleteFunc(slices.Clone(r.Resources), func(t *Resource) bool { return hide[t.URI] })
+						case *ListResourceTemplatesResult:
+							r.ResourceTemplates = slices.DeleteFunc(slices.Clone(r.ResourceTemplates), func(t *ResourceTemplate) bool { return hide[t.URITemplate] })
+						}
+						return res, err
+					}
+				})
+				for _, n := range c17Names {
+					kind.add(s, n, 0)
+				}
+				desc := fmt.Sprintf("%s page size %d, hidden %v", kind.name, pageSize, hide)
+				ct, st := NewInMemoryTransports()
+				ss, err := s.Connect(ctx, st, nil)
+				if err != nil {
+					cases.Violate(idx, "c17 session", err.Error(), 1)
+					continue
+				}
+				cs, err := NewClient(&Implementation{Name: "cli", Version: "1"}, &ClientOptions{Logger: quietLogger}).Connect(ctx, ct, &ClientSessionOptions{ProtocolVersion: "2025-06-18"})
+				if err != nil {
+					cases.Violate(idx, "c17 session", err.Error(), 1)
+					continue
+				}
+				var manual []string
+				cursor, pages, bad := "", 0, ""
+				for {
+					ids, next, err := kind.list(ctx, cs, cursor)
+					pages++
+					if err != nil {
+						bad = fmt.Sprintf("page %d failed: %v", pages, err)
+						break
+					}
+					manual = append(manual, ids...)
+					if next == "" || pages > 12 {
+						break
+					}
+					cursor = next
+				}
+				it, iterErr := kind.iter(ctx, cs)
+				cs.Close()
+				ss.Wait()
+				switch {
+				case bad != "":
+					cases.Violate(idx, "c17 filtered list-error", bad+" ["+desc+"]", pages)
+				case len(manual) != 5-len(hide):
+					cases.Violate(idx, "c17 filtered wrong-set", fmt.Sprintf("manual paging listed %v; %d of 5 items are visible [%s]", manual, 5-len(hide), desc), pages)
+				case iterErr != nil || !slices.Equal(it, manual):
+					cases.Violate(idx, "c17 filtered iterator-differs", fmt.Sprintf("the iterator yielded %v (%v), manual paging over %d pages %v [%s]", it, iterErr, pages, manual, desc), pages)
+				default:
+					cases.Record(idx, fmt.Sprintf("%s visible=%d", kind.name, len(manual)), pages, func() string { return desc })
+				}
+			}
+		}
+	}
+}
+
 func TestVerifC17(t *testing.T) {
 	env := verifx.LoadEnv("C17")
 	res := env.NewResult()
@@ -434,5 +518,6 @@ func TestVerifC17(t *testing.T) {
 		},
 	}})
 	c17BadCursors(env, res)
+	c17Filtered(env.NewCases(res, "filtered-listings"))
 	env.Finish(res)
 }
